@@ -1285,6 +1285,7 @@ def build():
     cfg.list_physical_devices = lambda *a: []
     tf.config = cfg
 
+    tf.executing_eagerly = lambda: True  # the shim evaluates eagerly
     ag = _Mod("tensorflow.autograph")
     age = _Mod("tensorflow.autograph.experimental")
     age.do_not_convert = lambda f=None, **kw: (f if f is not None else (lambda g: g))
